@@ -24,6 +24,12 @@ use rayon::iter::{IntoParallelIterator, IntoParallelRefIterator, ParallelIterato
 
 mod data_structures;
 mod utils;
+#[cfg(feature = "verif-hooks")]
+pub(crate) mod verif_hooks_utils {
+    pub(crate) use super::utils::{
+        calculate_t, get_indices_from_sponge, get_num_bytes, reed_solomon, tensor_vec,
+    };
+}
 
 mod brakedown;
 
